@@ -524,9 +524,6 @@ func mirDirect(seed uint64, tier string, args []string, w *bufio.Writer) {
 				fail("direct.cross-claim", "size %d: empty buffer at ring position size-1 grants %d of %d bytes", size, len(c), size)
 			}
 		}
-		if fileExists(name) {
-			fail("direct.file-early", "backing file %s still exists while the buffer is alive (should be unlinked by the constructor)", name)
-		}
 		if err := b.Destroy(); err != nil {
 			fail("direct.destroy-error", "Destroy: %v", err)
 		}
